@@ -271,6 +271,18 @@ def refineCore (O : Ops) (M : Marks) (levels : List Level) : List Level :=
   let mf := fun lv => mfOf O M lv (l1.getD lv emptyLevel)
   sweep (fun lv a b => (actF mf lv a, actG O M (lv + 1) b)) 0 l1
 
+/-- `HSpace.refine` as coded when the caller passes the space's own live sets as marks
+(`alias lv` = the container of level `lv` *is* `hmesh.active[lv]`, e.g. the return value of
+`active_cells(lv)`): `HMesh.refine` works on a copy (`set(marked.get(lv))`) but mutates
+`active[lv]` in place, so `_functions_to_deactivate(marked)` afterwards reads the *refined*
+active set of that level instead of the marked cells.  (Defect `refine-aliased-marks`.) -/
+def refineCoreAliased (O : Ops) (alias : Nat → Bool) (M : Marks) (levels : List Level) : List Level :=
+  let l1 := hmeshRefine O M levels
+  let mf := fun lv =>
+    let l := l1.getD lv emptyLevel
+    mfOf O (if alias lv then setM M lv l.act else M) lv l
+  sweep (fun lv a b => (actF mf lv a, actG O M (lv + 1) b)) 0 l1
+
 /-- `cell_support_extension(l, cells, k)`, `k ≤ l` -/
 def cellSupportExtension (O : Ops) (l : Nat) (cells : List Idx) (k : Nat) : List Idx :=
   let aux := if k == l then cells else (List.range (l - k)).foldl (fun cs i => O.parent (l - i) cs) cells
